@@ -631,7 +631,7 @@ def run(tier, seed, replay=None):
     extra = [from_json(c["formula"]) for c in corpus if c.get("kind") == "norm"]
     if rep is not None:
         extra = [from_json(rep["formula"])] if rep.get("kind") == "norm" else []
-    n1 = 0 if rep is not None else (6000 if not thorough else 60000)
+    n1 = 0 if rep is not None else (6000 if not thorough else 40000)
     sys.path.insert(1, C.REPO)
     x1 = x1_cases(rng, n1, extra, cap_alts=400 if thorough else 120)
     terms1, kept1 = [], []
@@ -663,7 +663,7 @@ def run(tier, seed, replay=None):
             x1_bad = [c for ok, c in zip(bools, kept1) if not ok]
     if x1_bad:
         f, r = min(x1_bad, key=lambda c: len(json.dumps(to_json(c[0]))))
-        model = C.eval_term(PID + "_norm", PREAMBLE, f"normalize {coq_formula(f)}")
+        model = C.eval_term(PID + "_norm", PREAMBLE, f"@normalize N {coq_formula(f)}")
         out.add_broken("correspondence:C07-normalize",
                        f"{len(x1_bad)} disagreements; smallest: group={to_json(f)} impl={to_json(r[1]) if r[0] == 'ok' else r} model={model}")
 
@@ -706,7 +706,7 @@ def run(tier, seed, replay=None):
             for kind in KINDS:
                 add_job(kind, f, orders(ats, ats[fi % len(ats)]), "shared-atom")
         if thorough:
-            n_big = int(os.environ.get("VERIF_C07_BIG", "900"))
+            n_big = int(os.environ.get("VERIF_C07_BIG", "600"))
             for fi in range(n_big):
                 k = rng.choice((5, 5, 6))
                 f = rand_formula_leaves(rng, k)
